@@ -36,6 +36,10 @@ type ProcScript struct {
 	MultiPm  int
 	ModifyPm int
 	MultiN   int // pieces of a split (>=2)
+	// NilErrPm: an "error" result carries a nil Error (sdk.ErrorRecord{Error: nil})
+	// with this probability (decided per record lineage); it is a rejection like
+	// any other error result.
+	NilErrPm int `json:",omitempty"`
 	// CutPm: on the first attempt for a record, with this probability the
 	// processor cuts its output short right before that record (the rest of
 	// the call's input gets no result and must be retried by the engine).
@@ -231,7 +235,12 @@ func (s *procSession) Process(ctx context.Context, recs []opencdc.Record) []sdk.
 		case PKFilter:
 			out = append(out, sdk.FilterRecord{})
 		case PKError:
-			out = append(out, sdk.ErrorRecord{Error: fmt.Errorf("vf-proc-error %s at %s", l, s.st.ID)})
+			if sc.NilErrPm > 0 && int(H(sc.Seed, s.st.ID, "nilerr", l.String())%1000) < sc.NilErrPm {
+				e.Note += " NILERR:" + l.String()
+				out = append(out, sdk.ErrorRecord{Error: nil})
+			} else {
+				out = append(out, sdk.ErrorRecord{Error: fmt.Errorf("vf-proc-error %s at %s", l, s.st.ID)})
+			}
 		case PKMulti:
 			n := sc.MultiN
 			if n < 2 {
